@@ -42,11 +42,13 @@ pub struct GenOpts {
     /// output path of the source being generated (set per source by `gen_project`): lets inert
     /// argument text mention the file itself
     pub self_out: Option<String>,
+    /// allow a second temp directive for the same target (with another body) in one source
+    pub temp_twice: bool,
 }
 
 impl Default for GenOpts {
     fn default() -> Self {
-        Self { error_pct: 6, max_sources: 3, max_items: 10, dotted_middle_shape: true, commands: true, self_out: None }
+        Self { error_pct: 6, max_sources: 3, max_items: 10, dotted_middle_shape: true, commands: true, self_out: None, temp_twice: true }
     }
 }
 
@@ -266,6 +268,15 @@ pub fn gen_source(r: &mut StdRng, o: &GenOpts, dir: &str, deps: &[String], is_de
                         ls.push(head("include", &target));
                     } else {
                         ls.push(head("run", &format!("cat {target}")));
+                    }
+                    if o.temp_twice && r.gen_bool(0.25) {
+                        // the same target written again with another body, and read again: the
+                        // second read has to see the second content
+                        ls.push("between the two versions".into());
+                        ls.push(head("temp", &target));
+                        ls.push(cont(r, "second version of the body"));
+                        ls.push("".into());
+                        ls.push(head("include", &target));
                     }
                 }
             }
